@@ -117,8 +117,10 @@ def _cases(tier, rng):
         # history: the folder held an earlier complete run of the *same* program given other input values, loaded in this
         # process through every entry point; the run under test replaces it
         yield {"prog": prog, "storage": STORAGES[(q + 2) % 3], "scoped": False, "after_loaded_same": True}
-        # history: after the run under test returned, a further map on the folder is *refused* for its arguments (an
-        # index name no MapSpec has / an index out of range): the folder still yields what the run produced
+        # history: after the run under test returned, a further map that opens the folder with cleanup=False is *refused*
+        # for its arguments (an index name no MapSpec has / an index out of range): the folder still yields what the run
+        # produced.  (Not with cleanup=True: such a request asks for the folder to be emptied, and nothing in the
+        # statements says that a refusal has to come before that - see DESIGN, Corrections.)
         yield {"prog": prog, "storage": STORAGES[q % 3], "scoped": False, "then_refused": ("unknown", "range")[q % 2]}
         # an input whose class is defined in __main__ of the process that runs the map (a script, a notebook)
         scalars = [n for n, d in prog["inputs"].items() if not d.get("omit")]
@@ -235,7 +237,8 @@ def _check(case):
                        for a in axes if a is not None), None)
             fixed = {"no_such_index_name": 0} if case["then_refused"] == "unknown" or ax is None else {ax: 10**6}
             try:
-                p.map(real_in, run_folder=folder, **{"parallel": False, "storage": stor, **mk, "fixed_indices": fixed})
+                p.map(real_in, run_folder=folder, **{"parallel": False, "storage": stor, **mk, "fixed_indices": fixed,
+                                                     "cleanup": False})
                 return bad  # accepted (C06's business): this history is not the one under test
             except (ValueError, IndexError, KeyError):
                 pass
